@@ -51,6 +51,9 @@ BUILT["C19"] = ("Lean 4 decision-logic theorems (accept <-> exactly the required
 BUILT["C20"] = ("Lean 4 separation theorems on an object-store model (fresh allocation by every constructor/decode call, edits touch one cell only, instance_independent over any interleaving, a block built without items is empty whatever happened before, decode twice = two independent instances) + seeded interleavings over 2-4 real instances of seven block classes",
             "Proof over the store model; real instances are created (with/without own item lists), decoded twice, edited and encoded in seeded interleavings, and after every step the items (by identity) and encoding of every instance are compared with the model.",
             NOTE + " This property is about CPython object identity; the store model is only as good as the correspondence.", "DESIGN.md §6 C20")
+BUILT["C14"] = ("Lean 4 theorems eq a b = true <-> a = b for the nine block equalities as implemented (byte-level ones via injectivity of enc from C01; field-wise ones via zipAll + length/channel-map guards), eq with decode(encode a), append detected, file equality; + real == on generated pairs (same / rebuilt / round-tripped / one change / +-1 item) and on pairs of files",
+            "Proof over the model (samples and scalars as bit patterns); the real __eq__ of every block class and of Tdf is evaluated in both directions on pairs that are identical, round-tripped or differ in exactly one element, and compared with the model and with equality of the abstract contents.",
+            NOTE + " numpy's allclose tolerance and ±0/NaN scalar corner cases are outside the model; unequal pairs differ far beyond tolerance.", "DESIGN.md §6 C14")
 CONT = "Lean 4 refinement proof: byte-level L0 model of add/remove/replace/setters (seek/write/truncate) simulates the list-of-blocks spec on every well-formed layout (add_sim, remove_sim, run_sim by induction over histories, any table length); "
 BUILT.update({
     "C03": (CONT + "corollary wfB(image)=true; + seeded history correspondence with Lean's wfB judging the real bytes after every call",
